@@ -846,19 +846,23 @@ theorem prePara_ok {c : Cfg α} {s0 : St α} {sel : List (Par × Sel α)} {sill 
     obtain ⟨e4, c4⟩ := setAnis_ok h4
     exact hfinal s4 false (by rw [e4]) (fun _ => c4) h5.symm
 
-/-- **decomposition of a successful `fit_variogram`** into its phases -/
-theorem fit_ok {c : Cfg α} {s0 : St α} {sel : List (Par × Sel α)} {sill : SillArg α} {anis : AnisArg α}
-    {ig : IG α} {w : Weights α} {methodOk : Bool} {x y : List α} {script : List (List α)} {popt : List α}
-    {r : Result α} (h : fit c s0 sel sill anis ig w methodOk x y script popt = .ok r) :
-    ∃ pre dir s1 outs,
+/-- **decomposition of a successful `fit_variogram`** (with or without the final evaluation at `popt`) into its
+    phases; `s1` = state after the optimiser's evaluations, `s1'` = state `_post_fitting` starts from -/
+theorem fitCore_ok {ev : Bool} {c : Cfg α} {s0 : St α} {sel : List (Par × Sel α)} {sill : SillArg α}
+    {anis : AnisArg α} {ig : IG α} {w : Weights α} {methodOk : Bool} {x y : List α} {script : List (List α)}
+    {popt : List α} {r : Result α}
+    (h : fitCore ev c s0 sel sill anis ig w methodOk x y script popt = .ok r) :
+    ∃ pre dir s1 outs s1',
       prePara c s0 sel sill anis = .ok pre ∧ methodOk = true ∧ checkVario c x.length y.length = .ok dir ∧
       runScript c pre.para pre.sill (pre.anisFit && dir) dir (pre.st.var c) (if dir then tile c.dim x else x)
         pre.st script = .ok (s1, outs) ∧
-      postFitting c pre.para (pre.anisFit && dir) dir s1 popt = .ok (r.st, r.dict) ∧
+      (if ev then ∃ o2, runScript c pre.para pre.sill (pre.anisFit && dir) dir (pre.st.var c)
+          (if dir then tile c.dim x else x) s1 [popt] = .ok (s1', o2) else s1' = s1) ∧
+      postFitting c pre.para (pre.anisFit && dir) dir s1' popt = .ok (r.st, r.dict) ∧
       r.para = pre.para ∧ r.sill = pre.sill ∧ r.dir = dir ∧ r.anisFit = (pre.anisFit && dir) ∧ r.outs = outs ∧
       r.xdata = (if dir then tile c.dim x else x) ∧
       r.r2 = r2Score c dir (if dir then tile c.dim x else x) y r.st := by
-  unfold fit at h
+  unfold fitCore at h
   obtain ⟨pre, h1, h'⟩ := bind_ok.mp h; clear h
   split at h'
   · cases h'
@@ -868,10 +872,19 @@ theorem fit_ok {c : Cfg α} {s0 : St α} {sel : List (Par × Sel α)} {sill : Si
     obtain ⟨g, h3, h'⟩ := bind_ok.mp h; clear h
     obtain ⟨⟨s1, outs⟩, h4, h⟩ := bind_ok.mp h'; clear h'
     simp only at h
-    obtain ⟨⟨s2, d⟩, h5, h'⟩ := bind_ok.mp h; clear h
-    simp only [Except.ok.injEq] at h'
-    subst h'
-    exact ⟨pre, dir, s1, outs, h1, by simpa using hm, h2, h4, h5, rfl, rfl, rfl, rfl, rfl, rfl, rfl⟩
+    obtain ⟨⟨s1', o2⟩, h5, h'⟩ := bind_ok.mp h; clear h
+    simp only at h'
+    obtain ⟨⟨s2, d⟩, h6, h⟩ := bind_ok.mp h'; clear h'
+    simp only [Except.ok.injEq] at h
+    subst h
+    refine ⟨pre, dir, s1, outs, s1', h1, by simpa using hm, h2, h4, ?_, h6, rfl, rfl, rfl, rfl, rfl, rfl, rfl⟩
+    cases ev
+    · simp only [Bool.false_eq_true, ↓reduceIte, Except.ok.injEq, Prod.mk.injEq] at h5 ⊢
+      exact h5.1.symm
+    · simp only [↓reduceIte] at h5 ⊢
+      split at h5
+      · cases h5
+      · exact ⟨o2, h5⟩
 
 /-- the scripted optimiser run on `a ++ b` is the run on `a` followed by the run on `b` -/
 theorem runScript_append {c : Cfg α} {pa : Para} {sill : Option α} {anisFit dir : Bool} {varSave : α}
@@ -930,6 +943,34 @@ theorem runScript_single {c : Cfg α} {pa : Para} {sill : Option α} {anisFit di
     subst h1 h2
     obtain ⟨e, ck, _⟩ := curveState_ok hr
     exact ⟨e, ck, rfl⟩
+
+/-- a single evaluation: either the punishment branch (model untouched) or the arguments get installed -/
+theorem runScript_single' {c : Cfg α} {pa : Para} {sill : Option α} {anisFit dir : Bool} {varSave : α}
+    {x : List α} {s s1 : St α} {p : List α} {outs : List (Option (List α))}
+    (h : runScript c pa sill anisFit dir varSave x s [p] = .ok (s1, outs)) :
+    (punished c pa sill p = true ∧ s1 = s) ∨
+    (punished c pa sill p = false ∧ s1 = curveTarget c pa sill anisFit dir varSave s p ∧ checkAll c s1 = true) := by
+  cases hp : punished c pa sill p
+  · right
+    obtain ⟨e, ck, _⟩ := runScript_single h hp
+    exact ⟨rfl, e, ck⟩
+  · left
+    refine ⟨rfl, ?_⟩
+    simp only [runScript] at h
+    obtain ⟨r, hr, h⟩ := bind_ok.mp h
+    unfold curveState at hr
+    simp only [hp, ↓reduceIte, Except.ok.injEq] at hr
+    subst hr
+    simp only [Except.bind, Except.ok.injEq, Prod.mk.injEq] at h
+    exact h.1.symm
+
+/-- the punishment branch needs a fitted variance and a constrained sill -/
+theorem punished_false_of_var {c : Cfg α} {pa : Para} {sill : Option α} {p : List α} (h : pa.var = false) :
+    punished c pa sill p = false := by
+  simp [punished, h]
+
+theorem punished_false_of_sill {c : Cfg α} {pa : Para} {p : List α} : punished c pa none p = false := by
+  simp [punished]
 
 /-- `_post_fitting` at `popt` leaves a model that is in the state of the curve evaluation at `popt` there -/
 theorem postTarget_fix (c : Cfg α) (pa : Para) (sill : Option α) (anisFit dir : Bool) (varSave : α)
